@@ -324,7 +324,7 @@ pub fn calltree_session(rep: &mut Report, check: &str, seed: u64, verbose: bool)
             println!("  step {:3} pc={:06x} {:04x} {:04x} {:<28} -> pc={:06x} sp={:08x} {:?}", steps, before.pc, w[0], w[1], insn.form(), a.pc, a.er[7], obs.real);
         }
         if is_flow {
-            let c = Case { pc: before.pc, code: vec![], er: before.er, ccr: before.ccr, patches: vec![] };
+            let c = Case { pc: before.pc, code: vec![], er: before.er, ccr: before.ccr, patches: vec![], pending: vec![] };
             let nf = rep.findings.len();
             record_session(rep, check, &c, &obs, &judge, &replay());
             bad |= rep.findings.len() > nf;
@@ -423,7 +423,12 @@ pub fn c06(rep: &mut Report, cfg: &Cfg) {
                 f.trap = t;
                 o.fields = Some(f);
                 o.ccr = Some(ccr as u8);
-                let Some(b) = build_case("57t0", &mut rng, &o) else { continue };
+                let Some(mut b) = build_case("57t0", &mut rng, &o) else { continue };
+                // requests may be pending while the trap executes (they are masked or simply not yet
+                // accepted): the trap still goes through its own vector and leaves them queued
+                for _ in 0..rng.below(4) {
+                    b.case.pending.push(1 + rng.below(63) as u8);
+                }
                 let obs = lock.run(&b.case);
                 if record(rep, check, &b.case, &obs, &judge) {
                     rep.cell("trapa", &[t as u64, ccr as u64]);
@@ -438,6 +443,9 @@ pub fn c06(rep: &mut Report, cfg: &Cfg) {
                 let sp = b.case.er[7] & 0xffffff;
                 b.case.patches.retain(|(a, _)| *a != sp);
                 b.case.patches.push((sp, ccr as u8));
+                for _ in 0..rng.below(3) {
+                    b.case.pending.push(1 + rng.below(63) as u8);
+                }
                 let obs = lock.run(&b.case);
                 if record(rep, check, &b.case, &obs, &judge) {
                     rep.cell("rte", &[ccr as u64]);
@@ -546,7 +554,7 @@ pub fn excwalk_session(rep: &mut Report, check: &str, seed: u64, verbose: bool) 
                 sess.set_regs(&s);
                 let v = 1 + rng.below(63) as u8;
                 let obs = sess.act(Action::Interrupt(v));
-                let c = Case { pc: s.pc, code: vec![], er: s.er, ccr: s.ccr, patches: vec![] };
+                let c = Case { pc: s.pc, code: vec![], er: s.er, ccr: s.ccr, patches: vec![], pending: vec![] };
                 let nf = rep.findings.len();
                 record_session(rep, check, &c, &obs, &judge, &replay());
                 bad |= rep.findings.len() > nf;
@@ -564,8 +572,18 @@ pub fn excwalk_session(rep: &mut Report, check: &str, seed: u64, verbose: bool) 
                 sess.set_regs(&s);
                 let t = 1 + rng.below(3) as u16;
                 sess.load(s.pc, &[0x57, (t << 4) as u8]);
+                let pend: Vec<u8> = (0..rng.below(3)).map(|_| 1 + rng.below(63) as u8).collect();
+                for v in &pend {
+                    sess.cpu.verif_request_interrupt(*v);
+                }
                 let obs = sess.act(Action::Step);
-                let c = Case { pc: s.pc, code: vec![0x57, (t << 4) as u8], er: s.er, ccr: s.ccr, patches: vec![] };
+                let q = sess.cpu.verif_pending();
+                sess.cpu.verif_clear_pending();
+                if q != pend && matches!(obs.real, RealOutcome::Ok(_)) {
+                    bad = true;
+                    rep.finding("excwalk|pending-queue-disturbed", || format!("TRAPA #{} executed with requests {:?} pending left the queue as {:?}", t, pend, q), &replay);
+                }
+                let c = Case { pc: s.pc, code: vec![0x57, (t << 4) as u8], er: s.er, ccr: s.ccr, patches: vec![], pending: vec![] };
                 let nf = rep.findings.len();
                 record_session(rep, check, &c, &obs, &judge, &replay());
                 bad |= rep.findings.len() > nf;
@@ -589,7 +607,7 @@ pub fn excwalk_session(rep: &mut Report, check: &str, seed: u64, verbose: bool) 
             sess.set_regs(&s);
             sess.load(s.pc, &[0x56, 0x70]);
             let obs = sess.act(Action::Step);
-            let c = Case { pc: s.pc, code: vec![0x56, 0x70], er: s.er, ccr: s.ccr, patches: vec![] };
+            let c = Case { pc: s.pc, code: vec![0x56, 0x70], er: s.er, ccr: s.ccr, patches: vec![], pending: vec![] };
             let nf = rep.findings.len();
             record_session(rep, check, &c, &obs, &judge, &replay());
             bad |= rep.findings.len() > nf;
